@@ -692,4 +692,13 @@ theorem boundsOf_iff (xs : List Int) (l u : Int) :
       have hu : x + ((x :: t).length : Int) - 1 = u := by omega
       rw [hu, if_pos h2]
 
+/-- at most `n` answers of a determinate goal -/
+theorem take_singleton_sound {α : Type} (n : Nat) (a : α) (P : α → Prop) (hP : P a) (as : List α)
+    (h : List.take n [a] = as) : as.length ≤ 1 ∧ ∀ p ∈ as, P p := by
+  subst h
+  refine ⟨by simp; omega, fun p hp => ?_⟩
+  have := List.mem_of_mem_take hp
+  simp only [List.mem_singleton] at this
+  exact this ▸ hP
+
 end Scryer.IntRel
